@@ -26,7 +26,9 @@ def _one(state, item):
             try:
                 res = fn(text, preserve=preserve) if preserve is not None and _takes_preserve(fn) else fn(text)
             except TypeError as exc:
-                if "preserve" in str(exc) or "positional" in str(exc):
+                if "root_is_static" in str(exc):
+                    res = fn(text, root_is_static=True)           # abstractions.overused_constant: the text is a whole module
+                elif "preserve" in str(exc) or "positional" in str(exc):
                     res = fn(text, preserve=frozenset())
                 else:
                     raise
